@@ -180,6 +180,23 @@ CLAIMED = {
         technique="TLA+ transcription of the alignment backtrace checked by TLC over all paths; TLC trace validation of recorded "
                   "alignment trees against the property-level specification",
         design="4/C04"),
+    "C07": dict(
+        text="The cepstrum ring (two-part writes and reads), the live feature ring (first/last frame replication, 'only consume "
+             "what fits'), the growing feature buffer, the utterance state machine and the decoder's process/search loop are "
+             "transcribed with indices in place of numbers; TLC checks for every split of the cepstra over process calls "
+             "(including calls that yield none), every placement of buffered calls and the end of the utterance that the search "
+             "is fed exactly the canonical windows 0..N-1 of FeatStream (the pre-fix STARTED handling violates this, as a "
+             "negative control). On the real decoder each execution runs a one-call reference and 3-4 variants of the same "
+             "audio with the same CMN state on fresh decoders - single samples to pieces around one window / the 128-frame "
+             "cepstrum buffer / the 256-frame live ring, buffered pieces, int16/float32, interleaved result / lattice / partial "
+             "alignment / JSON queries - and TLC validates that every final hypothesis, segmentation with scores, path score, "
+             "alignment tree and frame count equals the reference's and that the frame-count formula holds.",
+        note="grow_feat = TRUE (the default) is modelled; ring-mode feat_buf is not. CMN is fixed with decoder_set_cmn, audio "
+             "< 300 frames; full_utt (batch CMN) is not compared with streaming. Trusted: TLC, recorder. One genuine defect "
+             "found and repaired (fix: 1dde7cd); the FE frame loss reachable through acmod was repaired under C06 (64f3f4f).",
+        technique="TLA+ transcription of the feature pipeline checked by TLC against FeatStream; chunk schedules executed on the "
+                  "real decoder next to a reference; TLC trace validation of result equality",
+        design="4/C07"),
 }
 
 PENDING = "not built yet in this round (planned, see DESIGN.md section 4); no check is registered, so nothing is claimed"
